@@ -13,11 +13,33 @@ namespace Yomm2.RoundTrip
 open Yomm2 Yomm2.Spec Yomm2.GraphProofs Yomm2.GraphFacts Yomm2.Cells Yomm2.TableProofs Yomm2.VtblContent
 open Yomm2.Entries Yomm2.InstallTotal Yomm2.Bridge
 
-/-- the numbers that must fit the `uint16_t` fields -/
+/-- the numbers fit the `uint16_t` fields: exactly what the encoder checks, value by value -/
 structure Fits16 (c : Compiled) : Prop where
-  entries : ∀ row ∈ c.vtbl, ∀ e ∈ row, e.group < indexBit ∧ e.method < indexBit
-  specs : ∀ m ∈ c.methods, m.specs.length + 1 < stopBit
+  words : ∀ w ∈ (encode c).slots, w < wordLimit
   firsts : ∀ k, k < c.vtbl.length → c.slots.first.get k < stopBit
+  entries : ∀ row ∈ c.vtbl, ∀ e ∈ row, entryFits c e = true
+  cells : ∀ mo ∈ c.methods.zip c.outs, ¬ mo.1.vp.length < 2 → ∀ cell ∈ mo.2.table, cellIndex mo.1.specs.length cell.1 < stopBit
+
+theorem fits16_iff (c : Compiled) : fits16 c = true ↔ Fits16 c := by
+  unfold fits16
+  simp only [Bool.and_eq_true, List.all_eq_true, decide_eq_true_eq, Bool.or_eq_true, List.mem_range]
+  constructor
+  · rintro ⟨⟨⟨h1, h2⟩, h3⟩, h4⟩
+    exact ⟨h1, h2, h3, fun mo hmo har cell hcell => by
+      rcases h4 mo hmo with h | h
+      · exact absurd h har
+      · exact h cell hcell⟩
+  · intro h
+    refine ⟨⟨⟨h.words, h.firsts⟩, h.entries⟩, fun mo hmo => ?_⟩
+    by_cases har : mo.1.vp.length < 2
+    · exact Or.inl har
+    · exact Or.inr (h.cells mo hmo har)
+
+theorem entryFits_eq (c : Compiled) (e : Entry) :
+    entryFits c e = if e.vp ≠ 0 then decide (e.group < indexBit)
+      else decide (e.method < indexBit) &&
+        (if arOf c e.method == 1 then decide (cellIndex (nsOf c e.method) (cellAt c e) < stopBit)
+         else decide (e.group < stopBit)) := rfl
 
 theorem dtStarts_multi : ∀ (mos : List (MethodC × MethodOut)) (base k : Nat) (m : MethodC) (o : MethodOut),
     mos[k]? = some (m, o) → ¬ m.vp.length < 2 → ∃ b, (dtStarts mos base)[k]? = some (some b)
@@ -152,20 +174,26 @@ theorem round_trip_after_compile (proj : Nat → Nat) (reg : Registry) (hwf : WF
     have ht := table_facts ctx m mr hmm (hvplt m (List.mem_of_getElem? hm)) hgoodg
     exact ⟨ho, by rw [List.getElem?_zip_eq_some]; exact ⟨hm, ho⟩, ht.1, ht.2⟩
   -- an entry is good as soon as its method exists, its group is inside, and its parameter index is an index
-  have hentry : ∀ (e : Entry) (m : MethodC), c.methods[e.method]? = some m → e.group < indexBit → e.method < indexBit →
+  have hentry : ∀ (e : Entry) (m : MethodC), c.methods[e.method]? = some m → entryFits c e = true →
       e.vp < m.vp.length →
       EntryGood c (dtStarts (c.methods.zip c.outs) 0) e ∧ e.vp < arOf c e.method := by
-    intro e m hm hgb hmb hvp
+    intro e m hm hef hvp
+    rw [entryFits_eq] at hef
     obtain ⟨ho, hzip, hne, hdefn⟩ := hmeth e.method m hm
     have harm : arOf c e.method = m.vp.length := by simp [arOf, hm]
     have hnsm : nsOf c e.method = m.specs.length := by simp [nsOf, hm]
     have hmlt := (List.getElem?_eq_some_iff.mp hm).1
-    have hspec := hfit.specs m (List.mem_of_getElem? hm)
     refine ⟨⟨?_, ?_, ?_, ?_⟩, by rw [harm]; exact hvp⟩
-    · intro _; omega
-    · intro _; exact ⟨hmb, hmlt⟩
-    · intro _ _
-      rw [hnsm]
+    · intro hv
+      simp only [hv, ne_eq, not_false_eq_true, if_true, decide_eq_true_eq] at hef
+      omega
+    · intro hv
+      simp only [hv, ne_eq, not_true_eq_false, if_false, Bool.and_eq_true, decide_eq_true_eq] at hef
+      exact ⟨hef.1, hmlt⟩
+    · intro hv har1
+      simp only [hv, ne_eq, not_true_eq_false, if_false, Bool.and_eq_true, decide_eq_true_eq, har1, beq_self_eq_true, if_true] at hef
+      have hspec := hef.2
+      rw [hnsm] at hspec ⊢
       have hcell : ∀ i, cellAt c e = .defn i → i < m.specs.length := by
         intro i hi
         unfold cellAt at hi
@@ -176,12 +204,14 @@ theorem round_trip_after_compile (proj : Nat → Nat) (reg : Registry) (hwf : WF
         | some cell =>
           simp only [ht, Option.map_some, Option.getD_some] at hi
           exact hdefn cell (List.mem_of_getElem? ht) i hi
-      exact ⟨cellIndex_lt _ _ hcell hspec, hcell⟩
-    · intro _ har1
+      exact ⟨hspec, hcell⟩
+    · intro hv har1
+      have har1' : (arOf c e.method == 1) = false := by simpa using har1
+      simp only [hv, ne_eq, not_true_eq_false, if_false, Bool.and_eq_true, decide_eq_true_eq, har1', Bool.false_eq_true] at hef
       rw [harm] at har1
       have h1 := har m (List.mem_of_getElem? hm)
       obtain ⟨b, hb⟩ := dtStarts_multi (c.methods.zip c.outs) 0 e.method m _ hzip (by omega)
-      exact ⟨by omega, b, hb⟩
+      exact ⟨hef.2, b, hb⟩
   apply decode_encode_eq_install c inst hinst cells hcells hnd hlen har
   · -- strides
     intro mo hmo
@@ -199,19 +229,19 @@ theorem round_trip_after_compile (proj : Nat → Nat) (reg : Registry) (hwf : WF
     rw [ho2]
     refine ⟨hne, ?_⟩
     intro cell hcell
-    exact ⟨cellIndex_lt _ _ (hdefn cell hcell) (hfit.specs mo.1 (List.mem_of_getElem? hm)), hdefn cell hcell⟩
+    exact ⟨hfit.cells mo hmo (by omega) cell (by rw [ho2]; exact hcell), hdefn cell hcell⟩
   · -- entries
     intro row hrow e he
-    obtain ⟨hgb, hmb⟩ := hfit.entries row hrow e he
+    have hef := hfit.entries row hrow e he
     rcases cell_origin proj reg hwf c hc row hrow e he with ⟨he0, hne⟩ | ⟨w, hw, hwe⟩
     · -- a value-initialised cell: group 0 of method 0
       subst he0
       obtain ⟨m, rest, hms0⟩ := List.exists_cons_of_ne_nil hne
       have hm : c.methods[0]? = some m := by rw [hms0]; rfl
-      exact hentry ⟨0, 0, 0⟩ m hm hgb hmb (har m (List.mem_of_getElem? hm))
+      exact hentry ⟨0, 0, 0⟩ m hm hef (har m (List.mem_of_getElem? hm))
     · obtain ⟨mi, o, dim, gs, gi, gr, ho, hgs, _, _, _, hent⟩ := (mem_allWrites _ _ _).mp hw
       rw [← hwe, hent]
-      rw [← hwe, hent] at hgb hmb
+      rw [← hwe, hent] at hef
       have ho' := ho
       rw [houts, List.getElem?_map] at ho'
       cases hm : c.methods[mi]? with
@@ -222,7 +252,7 @@ theorem round_trip_after_compile (proj : Nat → Nat) (reg : Registry) (hwf : WF
         have hdim : dim < m.vp.length := by
           have := (List.getElem?_eq_some_iff.mp hgs).1
           simpa [dispatchMethod] using this
-        exact hentry ⟨mi, dim, gi⟩ m hm hgb hmb hdim
+        exact hentry ⟨mi, dim, gi⟩ m hm hef hdim
   · exact hfit.firsts
 
 end Yomm2.RoundTrip
